@@ -1,8 +1,201 @@
 import PybtexModel.Drv.Json
+import PybtexModel.Model.World
+import PybtexModel.Model.NameFormat
+import PybtexModel.Gen.StyleMacros
 open Lean
 namespace Pybtex.Drv.C18
+open Pybtex.Proc
+
+/-! ## `memohist`: a key sequence through `memoize(f, capacity)` -/
+
+def mresJ : MRes Unit Int → Json
+  | .val v => obj [("v", int v)]
+  | .raised _ => Json.str "raised"
+  | .internal => Json.str "INTERNAL"
+
+/-- per call: result, did `f` run, and the closure afterwards -/
+def memoSteps (cap : Nat) (f : Int → MRes Unit Int) (c : Memo Int Int) : List Int → List Json
+  | [] => []
+  | k :: ks =>
+    let r := Memo.call cap f c k
+    let ran := (dget c.memory k).isNone && (Memo.makeRoom cap c).1
+    let evicted : List Int :=
+      if (dget c.memory k).isNone then c.history.filter (fun x => !(Memo.makeRoom cap c).2.history.contains x) else []
+    obj [("r", mresJ r.1), ("ran", Json.bool ran), ("evicted", arr (evicted.map int)),
+         ("memory", arr (r.2.memory.map fun p => arr [int p.1, int p.2])),
+         ("history", arr (r.2.history.map int))] :: memoSteps cap f r.2 ks
+
+def memohist (j : Json) : Except String Json := do
+  let cap ← getNat j "cap"
+  let keys ← (← getArr j "keys").mapM fun x => x.getInt?
+  let raising ← (← getArr j "raise").mapM fun x => x.getInt?
+  let f : Int → MRes Unit Int := fun k => if raising.contains k then .raised () else .val (10 * k + 1)
+  let steps := memoSteps cap f Memo.empty keys
+  -- spec: what the un-memoised function returns for every call
+  pure (obj [("out", arr steps), ("spec", arr (keys.map fun k => mresJ (f k)))])
+
+/-! ## `worldhist`: a history of abstract API calls against the world -/
+
+def fmtErrName : FmtErr → String
+  | .unbalanced => "UnbalancedBraceError"
+  | .prematureEOF => "PrematureEOF"
+  | .tokenRequired => "TokenRequired"
+  | .illegalLetters => "PybtexSyntaxError"
+  | .tooDeep => "BibTeXError"
+  | .internal => "INTERNAL"
+
+def authorOf (e : Entry) : Option Str := dget (e.fields.map fun p => (lower p.1, p.2)) "author".toList
+
+def nameFmt : Str := "{ff~}{vv~}{ll}{, jj}".toList
+def sortFmt : Str := "{vv{ } }{ll{ }}{  ff{ }}{  jj{ }}".toList
+
+/-- the `format.name$` calls of `format.names` / `sort.format.names` for one author string -/
+def keysFor (fmt : Str) (author : Str) : List FmtKey :=
+  (List.range (splitNameList author).length).map fun (i : Nat) => ⟨author, Int.ofNat i + 1, fmt⟩
+
+def progOfKeys : List FmtKey → Prog
+  | [] => .done "bbl".toList
+  | k :: ks => .formatName k fun _ => progOfKeys ks
+
+/-- The concrete stand-ins the driver uses for the opaque code: the C04/C11/C12 models for names,
+and for the two test styles the `format.name$` calls they make for entries that have an `author`
+(`plain` additionally formats every name for the sort key in `presort`). -/
+def drvFns : Fns where
+  splitNames := splitNameList
+  formatOne := fun name fmt =>
+    match formatName name fmt with
+    | .error e => .raised (.other (fmtErrName e).toList)
+    | .ok (s, rep) => .val (s, if rep then [.invalidName name] else [])
+  person := fun s =>
+    match mkPerson s [] [] [] [] [] with
+    | .ok (p, rep) => .ok (p.toStr, rep)
+    | .error .tooDeep => .error (.other "BibTeXError".toList)
+    | .error _ => .error (.other "INTERNAL".toList)
+  entryPoint := fun g n =>
+    if g = inputGroup ∧ n = bibtexName then some bibtexParserCls
+    else if Gen.c18Plugins.contains (g, n) then some (g ++ ":".toList ++ n) else none
+  plugin := fun cls _ => .done cls
+  bstError := fun style =>
+    match dget Gen.styleMacros style with
+    | some _ => none
+    | none => some (.other "PybtexError".toList)       -- unable to open <style>.bst
+  bstMacros := fun style => match dget Gen.styleMacros style with | some t => t | none => []
+  bst := fun style r =>
+    let authors := r.entries.filterMap authorOf
+    let sortKeys := if style = "plain".toList then (authors.map (keysFor sortFmt)).flatten else []
+    progOfKeys (sortKeys ++ (authors.map (keysFor nameFmt)).flatten)
+  python := fun style _ =>
+    .findPlugin "pybtex.style.formatting".toList style fun o =>
+      match o with
+      | none => .raise (.pluginNotFound "pybtex.style.formatting".toList style)
+      | some _ => .done "bbl".toList
+
+def parsePart (j : Json) : Except String Part := do
+  match j.getObjVal? "lit" with
+  | .ok v => pure (.lit (← jsonToStr v))
+  | .error _ => pure (.ref (← getStr j "ref"))
+
+def parseCmd (j : Json) : Except String Cmd := do
+  let k ← (← j.getObjVal? "k").getStr?
+  match k with
+  | "string" => pure (.string (← getStr j "name") (← (← getArr j "val").mapM parsePart))
+  | "preamble" => pure (.preamble (← (← getArr j "val").mapM parsePart))
+  | "entry" =>
+    let fs ← (← getArr j "fields").mapM fun f => do
+      let a ← f.getArr?
+      let name ← jsonToStr a[0]!
+      let parts ← (← a[1]!.getArr?).toList.mapM parsePart
+      pure (name, parts)
+    pure (.entry (← getStr j "type") (← getStr j "key") fs)
+  | _ => throw s!"unknown command kind {k}"
+
+def parseDoc (j : Json) : Except String Doc := do (← j.getArr?).toList.mapM parseCmd
+
+def parseTable (l : List Json) : Except String Table :=
+  l.mapM fun p => do
+    let a ← p.getArr?
+    pure (← jsonToStr a[0]!, ← jsonToStr a[1]!)
+
+/-- fuel only bounds the nesting of `capture` / `nonstrict` wrappers in the JSON -/
+def parseCall : Nat → Json → Except String Call
+  | 0, _ => throw "call nested too deeply"
+  | fuel + 1, j => do
+    let c ← (← j.getObjVal? "c").getStr?
+    match c with
+    | "parse" => pure (.parse (← (← getArr j "files").mapM parseDoc))
+    | "lowlevel" =>
+      let a ← j.getObjVal? "arg"
+      let arg ← match a with
+        | .str "default" => pure MacroArg.default
+        | .str "module" => pure MacroArg.moduleTable
+        | _ => do pure (MacroArg.table (dofPairs (← parseTable (← getArr a "table"))))   -- `dict(pairs)`
+      pure (.lowLevel arg (← parseDoc (← j.getObjVal? "doc")))
+    | "fmtname" => pure (.formatName ⟨← getStr j "names", ← getInt j "n", ← getStr j "fmt"⟩)
+    | "plugin" => pure (.plugin (← getStr j "group") (← getStr j "name") (.text (← getStr j "text")))
+    | "bibtex" => pure (.bibtexRun (← getStr j "style") (← (← getArr j "files").mapM parseDoc))
+    | "python" => pure (.pythonRun (← getStr j "style") (← (← getArr j "files").mapM parseDoc))
+    | "capture" => pure (.capture (← parseCall fuel (← j.getObjVal? "call")))
+    | "nonstrict" => pure (.nonstrict (← parseCall fuel (← j.getObjVal? "call")))
+    | _ => throw s!"unknown call {c}"
+
+def errJ : Err → Json
+  | .undefinedMacro n => arr [Json.str "UndefinedMacro", strToJson n]
+  | .duplicateEntry k => arr [Json.str "BibliographyDataError", strToJson k]
+  | .duplicateField k f => arr [Json.str "DuplicateField", strToJson (k ++ "/".toList ++ f)]
+  | .invalidName n => arr [Json.str "InvalidNameString", strToJson n]
+  | .pluginNotFound g n => arr [Json.str "PluginNotFound", strToJson (g ++ ".".toList ++ n)]
+  | .indexError => arr [Json.str "IndexError", Json.str ""]
+  | .other tag => arr [strToJson tag, Json.str ""]
+
+def tableJ (t : Table) : Json := arr (t.map fun p => arr [strToJson p.1, strToJson p.2])
+
+def entryJ (e : Entry) : Json :=
+  obj [("key", strToJson e.key), ("type", strToJson e.type),
+       ("fields", arr (e.fields.map fun p => arr [strToJson p.1, strToJson p.2])),
+       ("persons", arr (e.persons.map fun p => arr [strToJson p.1, strToJson p.2]))]
+
+def lowJ : LowCmd → Json
+  | .string n v => arr [Json.str "string", strToJson n, strs v]
+  | .preamble v => arr [Json.str "preamble", strs v]
+  | .entry t k fs => arr [Json.str "entry", strToJson t, strToJson k, arr (fs.map fun p => arr [strToJson p.1, strs p.2])]
+
+def resultJ : Result → Json
+  | .reader r => obj [("entries", arr (r.entries.map entryJ)), ("preamble", strs r.preamble), ("macros", tableJ r.macros)]
+  | .low l t => obj [("low", arr (l.map lowJ)), ("macros", tableJ t)]
+  | .str s => obj [("str", strToJson s)]
+  | .raised e => obj [("raised", errJ e)]
+  | .internal => Json.str "INTERNAL"
+  | .captured r errs => obj [("res", resultJ r), ("errors", arr (errs.map errJ))]
+
+def keyJ (k : FmtKey) : Json := arr [strToJson k.names, int k.n, strToJson k.fmt]
+
+/-- the observable part of the world; `brief` leaves the key lists of the caches out -/
+def worldJ (brief : Bool) (w : World) : Json :=
+  obj ([("months", tableJ w.months), ("strict", Json.bool w.strict), ("error_code", nat w.errorCode),
+        ("captured", match w.captured with | none => Json.null | some l => arr (l.map errJ)),
+        ("plugins", nat w.plugins.length),
+        ("split_size", nat w.splitCache.memory.length), ("fmt_size", nat w.fmtCache.memory.length)] ++
+       (if brief then [] else
+         [("split_keys", strs w.splitCache.history), ("fmt_keys", arr (w.fmtCache.history.map keyJ))]))
+
+def runCalls (w : World) : List (Call × Bool) → List Json
+  | [] => []
+  | (c, brief) :: cs =>
+    let r := step drvFns w c
+    obj [("res", resultJ r.2), ("world", worldJ brief r.1)] :: runCalls r.1 cs
+
+/-- the spec side: every call evaluated in a FRESH world (what a fresh interpreter returns) -/
+def freshResults (cs : List Call) : List Json := cs.map fun c => resultJ (step drvFns World.fresh c).2
+
+def worldhist (j : Json) : Except String Json := do
+  let calls ← (← getArr j "calls").mapM fun cj => do
+    let c ← parseCall 8 cj
+    let brief := match cj.getObjVal? "brief" with | .ok (.bool true) => true | _ => false
+    pure (c, brief)
+  pure (obj [("out", arr (runCalls World.fresh calls)), ("spec", arr (freshResults (calls.map (·.1))))])
 
 /-- driver ops of this property: (op name, handler) -/
-def handlers : List (String × (Json → Except String Json)) := []
+def handlers : List (String × (Json → Except String Json)) :=
+  [("memohist", memohist), ("worldhist", worldhist)]
 
 end Pybtex.Drv.C18
